@@ -28,7 +28,7 @@ META = {
                   "srctools._engine_db:EngineDB.get_ent", "srctools._engine_db:EngineDB._parse_block",
                   "srctools._engine_db:EngineDB.get_fgd", "srctools._engine_db:make_lookup"],
     "bounds": "text: symbolic str (all code points; exact length per slice: quick 0..2 single slot / two slots with total <= 2, "
-              "thorough also readonly/report variants; numeric-looking alphabet {0-9 + - blank _ . e} up to length 2, thorough 3 / 2x2) "
+              "thorough also readonly/report variants; numeric-looking alphabet {0-9 + - blank _ . e} up to length 2, thorough 3 / 2+1) "
               "in one or two of: keyvalue display name / default / description; one symbolic leaf (len 0..1, thorough 2) among input / "
               "output description, entity description, base description, resource file name, tagged keyvalue name / description, "
               "choice label, spawnflag label; '+' splitting: CONCRETE 1027..1033-char texts of 7 kinds (blanks, none, newlines, an "
@@ -864,7 +864,6 @@ def obligations(tier):
             for (n, m) in [(0, 1), (0, 2), (0, 3)]:
                 sl.append({"n": n, "m": m, "slots": "disp,default", "vt": vt, "third": 0, "alpha": "num"})
             sl.append({"n": 2, "m": 1, "slots": "default,desc", "vt": vt, "third": 0, "alpha": "num"})
-            sl.append({"n": 2, "m": 2, "slots": "default,disp", "vt": vt, "third": 0, "alpha": "num"})
     obls.append(Obl("kv.text", MOD, "h_kv", slices=sl, budget_s=300 if q else 3000, per_path_s=40,
                     desc="keyvalue display name / default / description: parse(export(f)) == f and export is a fixed point; "
                          "custom_syntax symbolic",
